@@ -1,2 +1,95 @@
-/- C15 driver (stub until the model exists) -/
-def main : IO Unit := pure ()
+/- C15 driver: op lines in, observable lines out (same format as props/C15/harness.cpp).
+`c15`       — the model of the repaired tree (Model.lean)
+`c15 orig`  — reply parsing as in the unpatched tree (Orig.lean), for replaying the findings -/
+import TboxModel.Util
+import TboxModel.C15.Model
+import TboxModel.C15.Orig
+open Tbox.Util Tbox.C15
+
+def statusStr : Status → String
+  | .success => "success" | .domainError => "domain-error" | .allDnsFail => "all-dns-fail"
+  | .timeout => "timeout" | .fail => "fail"
+
+def listStr (xs : List String) : String := if xs.isEmpty then "-" else ",".intercalate xs
+
+def eventStr (e : Event) : String :=
+  "P cb " ++ toString e.serial ++ " " ++ statusStr e.result.status ++
+  " a=" ++ listStr (e.result.a.map fun r => toString r.ttl ++ ":" ++ hexOfBytes r.ip) ++
+  " c=" ++ listStr (e.result.c.map fun r => toString r.ttl ++ ":" ++ hexOfBytes r.name)
+
+def small? (w : String) (bound : Nat) : Option Nat := do
+  let n ← w.toNat?
+  if n < bound then some n else none
+
+def parseOp (ws : List String) : Option Op :=
+  match ws with
+  | ["servers", n] => do pure (.servers (← small? n 4))
+  | ["lookup"] => some .lookup
+  | ["cancel", i] => do pure (.cancel (← small? i 65536))
+  | ["running", i] => do pure (.running (← small? i 65536))
+  | ["recv", h] => do pure (.recv (← bytesOfHex h))
+  | ["tick"] => some .tick
+  | _ => none
+
+def cap (n : Nat) : String := toString (min n 3)
+
+/-- branch tags of one `recv` (distribution statistics / non-triviality only) -/
+def recvTags (st : St) (d : List Byte) : String :=
+  if st.reqs.isEmpty then "recv-idle" else
+  let known := fun id => (find st.reqs id).isSome
+  match parseReply d known with
+  | .bad p =>
+      (if d.length < 4 then "short" else if d.length < 12 then "short-header" else "malformed") ++
+      (if p.jumps ≥ maxHops then " hop-limit" else "") ++ (if p.jumps > 0 then " ptr" else "")
+  | .uninit _ => "UNINIT"
+  | .diverge _ => "DIVERGE"
+  | .ok .ignore _ => if known (beNat (slice d 0 2)) then "not-response" else "unknown-id"
+  | .ok (.answer _ a c) p =>
+      "answer a" ++ cap a.length ++ " c" ++ cap c.length ++ (if p.jumps > 0 then " ptr" else "") ++
+      (if p.jumps > 1 then " ptr-chain" else "") ++ (if p.pos < d.length then " trailing" else "")
+  | .ok (.rcode id rc) _ =>
+      if rc = 3 then "rcode3" else if rc = 1 then "rcode1" else
+      match find st.reqs id with
+      | some r => if r.responseCount + 1 < st.servers then "srvfail-wait" else "srvfail-all"
+      | none => "rcode-unknown"
+
+def opTags (st : St) : Op → String
+  | .servers n => "servers" ++ toString n
+  | .lookup => if st.servers = 0 then "lookup-refused" else if st.reqs.isEmpty then "lookup-first" else "lookup-more"
+  | .cancel id => if (find st.reqs id).isSome then "cancel-hit" else "cancel-miss"
+  | .running _ => "running"
+  | .recv d => recvTags st d
+  | .tick => if st.valueNumber = 0 then "tick-idle" else if st.r1.isEmpty then "tick-empty" else "tick-expire"
+
+def eventTags (es : List Event) : String :=
+  " ".intercalate (es.map fun e => "cb-" ++ statusStr e.result.status)
+
+structure DSt where
+  orig : Bool
+  st : St
+
+def stepLine (s : DSt) (line : String) : DSt × List String :=
+  let ws := words line
+  match ws with
+  | [] => (s, [])
+  | "case" :: _ => ({ s with st := init }, [line.trimAscii.toString])
+  | _ =>
+    match parseOp ws with
+    | none => (s, ["bad-op"])
+    | some op =>
+      if s.orig then
+        match op with
+        | .recv d =>
+            match Orig.onRecv s.st d with
+            | .inl what => (s, ["B orig", "P ret=0", "P " ++ what])
+            | .inr (st', es) => ({ s with st := st' }, ["B orig", "P ret=0"] ++ es.map eventStr)
+        | _ =>
+            let (st', o) := step s.st op
+            ({ s with st := st' }, ["P ret=" ++ toString o.ret] ++ o.events.map eventStr)
+      else
+        let (st', o) := step s.st op
+        ({ s with st := st' },
+         ["B " ++ opTags s.st op ++ " " ++ eventTags o.events, "P ret=" ++ toString o.ret] ++ o.events.map eventStr)
+
+def main (args : List String) : IO Unit :=
+  runDriver { orig := args.contains "orig", st := init } stepLine
